@@ -23,8 +23,9 @@ from okdmr.dmrlib.hytera.pdu.radio_control_protocol import RadioControlProtocol,
 
 EXPLANATION = ("C12: payload octets, reliable/confirmed flags, HRNP source/destination/packet/block numbers, HSTRP type bits, sequence number and option data are symbolic; "
                "GPS text fields are concrete witnesses inside otherwise symbolic frames.")
-BOUNDS = {"quick": "every implemented (service, opcode); one payload size per variable-length field (text 6 octets, option data 3, talker alias 4, raw payload 3); HRNP nesting; HSTRP with 0..2 options",
-          "thorough": "variable-length fields at sizes {0,2,6,14} (text), {0,3} (option data), {0,4} (alias); HSTRP with 0..3 options of data lengths {0,1,4}"}
+BOUNDS = {"quick": "every implemented (service, opcode); one payload size per variable-length field (text 6 octets, talker alias 4, raw payload 3), option data {absent, 0, 3} octets; HRNP nesting; HSTRP with 0..2 options; "
+                   "GPS block built from float fields: concrete boundary witnesses only (declared split, not solver-decided)",
+          "thorough": "variable-length fields at sizes {0,2,6,14} (text), {0,3} (option data), {0,4} (alias); HSTRP with 0..3 options of data lengths {0,1,4}; GPS witnesses as quick"}
 OUTSIDE = ("GPSData numeric text fields (decimal float formatting / parsing is C-level): exercised with fixed concrete NMEA values, not solver-decided; "
            "text longer than 14 octets; surrogate pairs are irrelevant (text is carried as raw octets)")
 ASSUMPTIONS = ["HDAP checksum reference: ((sum of octets from opcode through payload) mod 256 xor 0xFF) + 0x33 mod 256, accumulated octet by octet",
@@ -66,7 +67,7 @@ def specs(tier):
     for gname, g in GPS_WITNESSES.items():
         out.append(("LP-StandardReport-" + gname, LocationProtocol, HyteraServiceType.LP.value, 0xA0, 0x02, "big", S(8) + [0, None] + list(g)))
     texts = (6,) if tier == "quick" else (0, 2, 6, 14)
-    opts = (3,) if tier == "quick" else (0, 3)
+    opts = (0, 3)
     for t in TMPService:
         body = {"SendPrivateMessage": "text", "SendGroupMessage": "text", "PrivateShortData": "text", "GroupShortData": "text",
                 "SendPrivateMessageAck": 13, "PrivateShortDataAck": 13, "SendGroupMessageAck": 9, "GroupShortDataAck": 9}.get(t.name)
@@ -197,6 +198,35 @@ def h_hdap(hx, name, tier):
     hx.cover("ok")
 
 
+GPS_FIELD_WITNESSES = dict(
+    speed=[0.0, 0.04, 0.05, 0.5, 5.5, 9.94, 9.95, 9.97, 9.999, 10.0, 10.04, 12.0, 99.94, 99.96, 100.0, 123.4, 999.0],
+    lat=[0.0, 0.00004, 59.99996, 5012.3456, 8959.9999, 9000.0],
+    lon=[0.0, 0.00005, 959.99996, 1423.4567, 17959.9999, 18000.0],
+    direction=[0, 9, 10, 99, 100, 359])
+
+
+def h_gps_fields(hx):
+    """GPS block BUILT FROM FIELD VALUES (floats): fixed width 40, re-parse -> re-serialise identity.  Decimal float formatting is C-level, so
+    this case is a declared split over CONCRETE boundary witnesses (rounding carries such as 9.97 -> '10.0'); it is not solver-decided and is
+    reported as such in BOUNDS / OUTSIDE."""
+    import datetime
+    from okdmr.dmrlib.hytera.pdu.location_protocol import GPSData
+    W = GPS_FIELD_WITNESSES
+    sp = hx.pick("speed", W["speed"])
+    la, lo, di = hx.pick("lat", W["lat"]), hx.pick("lon", W["lon"]), hx.pick("dir", W["direction"])
+    g = GPSData(data_valid="A", greenwich_time=datetime.time(13, 30, 51), greenwich_date=datetime.date(2021, 3, 30), north_south="N", latitude=la, east_west="E",
+                longitude=lo, speed_knots=sp, direction=di)
+    b = g.as_bytes()
+    what = "GPS block built from fields (speed %r kn, lat %r, lon %r, direction %r)" % (sp, la, lo, di)
+    hx.prove(len(b) == 40, "%s: 40 octets (got %d)" % (what, len(b)))
+    if len(b) == 40:
+        q = GPSData.from_bytes(b)
+        hx.prove(q.as_bytes() == b, "%s: parse -> serialise gives the same 40 octets" % what)
+        hx.prove(AND(q.direction == di, q.north_south == "N", q.east_west == "E"), "%s: direction and hemispheres survive" % what)
+        hx.prove(abs(q.latitude - la) <= 0.00005001 and abs(q.longitude - lo) <= 0.00005001, "%s: coordinates survive to the 4 decimals of the wire format" % what)
+    hx.cover("gps-fields")
+
+
 def h_hstrp(hx, name, tier, nopts, optlen):
     spec = SPECS[tier][name]
     frame = build_frame(hx, spec)
@@ -229,7 +259,9 @@ def h_hstrp(hx, name, tier, nopts, optlen):
 
 
 def cases(tier, seed):
-    out = []
+    out = [Case("gps-built-from-fields", "h_gps_fields", {}, covers=["gps-fields"], budget_s=300, opts=dict(max_paths=20000),
+                bounds="concrete witnesses (not solver-decided): %d speeds x %d latitudes x %d longitudes x %d directions at the rounding boundaries of the fixed-width text fields" % tuple(
+                    len(GPS_FIELD_WITNESSES[k]) for k in ("speed", "lat", "lon", "direction")))]
     for name in SPECS[tier]:
         out.append(Case("hdap-" + name, "h_hdap", dict(name=name, tier=tier), budget_s=600, opts=dict(max_paths=1500, max_violations=6),
                         bounds="frame of %d octets: payload, reliable flag, checksum octet symbolic; HRNP source/destination/packet/block symbolic" % (7 + len(SPECS[tier][name][6]))))
